@@ -28,7 +28,9 @@
 
   Deviation switches (DESIGN §3.4); with all off this is the intended algorithm.  Repaired in /repo meanwhile (switch no longer in
   `Dev.current`, witness replayed from corpus/C23 on every run): notInPlainAnti 47485db, inSubquerySkipsNulls 08ac987,
-  scalarCountBug 51cab70, nonEqFilterFlipped 1caf07a, inDropsNonEqCorr + inDropsProjectedCorr 2272b7e.
+  scalarCountBug 51cab70, nonEqFilterFlipped 1caf07a, inDropsNonEqCorr + inDropsProjectedCorr 2272b7e, scalarFirstBatchOnly 8fe594c,
+  corrScalarFirstRowTyped 9a7f30b, scalarReductionDup ba41c49, inSubqueryTypesLimited (DATE / BOOLEAN) 69c41ef.
+  Still in the tree: corrScalarInSelectNull (A.26), corrErrorsSwallowed.
     inSubquerySkipsNulls   — the row-by-row IN loop ignores NULL elements and answers FALSE for a NULL left operand
                              whatever `negated` is (subquery.rs:1268-1276); so `1 NOT IN {2, NULL}` is TRUE (must be NULL)
                              and `NULL [NOT] IN {…}` is FALSE (must be NULL, or FALSE/TRUE over the empty set).
@@ -94,11 +96,11 @@ deriving DecidableEq, Repr, Inhabited
 def Dev.none : Dev := {}
 /-- the tree as it is now: the switches of the defects repaired in /repo are off —
     notInPlainAnti (47485db), inSubquerySkipsNulls (08ac987), scalarCountBug (51cab70), nonEqFilterFlipped (1caf07a),
-    inDropsNonEqCorr / inDropsProjectedCorr (2272b7e: the rule now declines the rewrite instead of losing a predicate).
-    `inSubqueryTypesLimited` is a refusal, not a wrong answer. -/
+    inDropsNonEqCorr / inDropsProjectedCorr (2272b7e: the rule now declines the rewrite instead of losing a predicate),
+    scalarFirstBatchOnly (8fe594c), corrScalarFirstRowTyped (9a7f30b), scalarReductionDup (ba41c49),
+    inSubqueryTypesLimited for DATE / BOOLEAN (69c41ef; mixed numeric pairs are still refused). -/
 def Dev.current : Dev :=
-  { corrScalarInSelectNull := true, corrErrorsSwallowed := true, inSubqueryTypesLimited := true,
-    scalarFirstBatchOnly := true, corrScalarFirstRowTyped := true, scalarReductionDup := true }
+  { corrScalarInSelectNull := true, corrErrorsSwallowed := true }
 
 /-- the tree before the `fix:` commits listed above -/
 def Dev.original : Dev :=
